@@ -17,6 +17,7 @@
 #include <type_traits>
 #include <utility>
 #include <vector>
+#include <sys/mman.h>
 
 namespace c09
 {
@@ -626,6 +627,92 @@ namespace c09
         }
         Exact(const Exact &) = delete;
         ~Exact() { free(blk); }
+    };
+
+    // ---------------------------------------------------------------- envelopes: a record that stores its sub-records as
+    // opaque length-prefixed blobs produced by a NESTED top-level igris::serialize(sub) of the SAME type, called from
+    // inside the record's own reflect()/serialize_reflect() while the outer serialize() is still running.
+    // E has members: u8 id; std::vector<E> kids; u16 tail. Stated layout: id, u16 count, per kid u16 length + the
+    // kid's encoding, tail. Shapes: every tree of height <= h with 0..2 kids per node.
+    inline long tree_count(int h) { return h <= 1 ? 1 : 1 + tree_count(h - 1) + tree_count(h - 1) * tree_count(h - 1); }
+    template <class E> E make_tree(long idx, int h, int &counter)
+    {
+        E e;
+        e.id = (u8)(counter * 37 + 1);
+        e.tail = (u16)(0x0102 + counter * 0x0101);
+        counter++;
+        if (h <= 1 || idx == 0)
+            return e;
+        long f = tree_count(h - 1);
+        if (idx <= f)
+        {
+            e.kids.push_back(make_tree<E>(idx - 1, h - 1, counter));
+            return e;
+        }
+        idx -= f + 1;
+        e.kids.push_back(make_tree<E>(idx % f, h - 1, counter));
+        e.kids.push_back(make_tree<E>(idx / f, h - 1, counter));
+        return e;
+    }
+    template <class E> void ref_tree(std::string &o, const E &e)
+    {
+        o.append((const char *)&e.id, 1);
+        ref_u16(o, e.kids.size(), nullptr);
+        for (const E &k : e.kids)
+        {
+            std::string sub;
+            ref_tree(sub, k);
+            ref_u16(o, sub.size(), nullptr);
+            o += sub;
+        }
+        o.append((const char *)&e.tail, 2);
+    }
+    template <class E> bool eq_tree(const E &a, const E &b)
+    {
+        if (a.id != b.id || a.tail != b.tail || a.kids.size() != b.kids.size())
+            return false;
+        for (size_t i = 0; i < a.kids.size(); i++)
+            if (!eq_tree(a.kids[i], b.kids[i]))
+                return false;
+        return true;
+    }
+    template <class E> int tree_height(const E &e)
+    {
+        int h = 0;
+        for (const E &k : e.kids)
+            h = std::max(h, tree_height(k));
+        return h + 1;
+    }
+
+    // ---------------------------------------------------------------- read-only, exactly-sized input
+    // The encoded bytes in PROT_READ memory, their end flush against a PROT_NONE page: a decoder that patches its
+    // input (and restores it) or reads one byte too many faults. One mapping per process, reused.
+    struct ReadOnly
+    {
+        static const size_t CAP = 1 << 20;
+        static char *base()
+        {
+            static char *b = nullptr;
+            if (!b)
+            {
+                b = (char *)mmap(nullptr, CAP + 4096, PROT_READ | PROT_WRITE, MAP_PRIVATE | MAP_ANONYMOUS, -1, 0);
+                mprotect(b + CAP, 4096, PROT_NONE);
+            }
+            return b;
+        }
+        // returns nullptr when the data does not fit
+        static const char *hold(const char *src, size_t n)
+        {
+            if (n > CAP)
+                return nullptr;
+            char *b = base();
+            mprotect(b, CAP, PROT_READ | PROT_WRITE);
+            char *p = b + CAP - n;
+            if (n)
+                memcpy(p, src, n);
+            mprotect(b, CAP, PROT_READ);
+            return p;
+        }
     };
 
     // ---------------------------------------------------------------- registry (filled by the part TUs, index = position in the type list)
